@@ -9,6 +9,8 @@ package main
 import (
 	"bytes"
 	"fmt"
+	"os"
+	"path/filepath"
 	"sort"
 	"strconv"
 	"strings"
@@ -21,11 +23,13 @@ func init() { register("engine-seq", suiteEngineSeq) }
 type engQuirks struct {
 	fprintf, patchEager, patchNoRefresh, subStale, solLazy, poolAlias bool
 	scenarioEager                                                     bool // also: the other failure paths of POST /scenario are not transcribed -> the sequence is cut there
+	nullShadow                                                        bool // Attributes.Has treats a null-valued entry as absent: ReplaceAttribute / Join append a second entry of the name
+	joinStale                                                         bool // Attributes.Join asks its receiver, not the list being built: a name posted twice in one PATCH is appended twice
 }
 
 func (q engQuirks) line() string {
-	return fmt.Sprintf("quirks fprintf=%s patchEager=%s patchNoRefresh=%s subStale=%s solLazy=%s poolAlias=%s scenarioEager=%s",
-		b2s(q.fprintf), b2s(q.patchEager), b2s(q.patchNoRefresh), b2s(q.subStale), b2s(q.solLazy), b2s(q.poolAlias), b2s(q.scenarioEager))
+	return fmt.Sprintf("quirks fprintf=%s patchEager=%s patchNoRefresh=%s subStale=%s solLazy=%s poolAlias=%s scenarioEager=%s nullShadow=%s joinStale=%s",
+		b2s(q.fprintf), b2s(q.patchEager), b2s(q.patchNoRefresh), b2s(q.subStale), b2s(q.solLazy), b2s(q.poolAlias), b2s(q.scenarioEager), b2s(q.nullShadow), b2s(q.joinStale))
 }
 
 const (
@@ -63,7 +67,9 @@ type seqRun struct {
 	quiet    bool              // calibration: nothing is recorded
 	inFlush  bool
 	announced map[string]bool
-	reservedTouched bool       // a PATCH named a derived attribute: the engine's own representation is not compared with a fresh engine's
+	writes   []rawReq          // the writes answered 200 since the last reset, in order (route check: replayed on fresh engines)
+	rr       *Rng              // route check: source of random target sets (nil: the current set only)
+	last     *readback         // the read-back that ended the previous exec (the next request's "before")
 	raw      bool
 }
 
@@ -93,7 +99,8 @@ func (s *seqRun) reset() {
 	s.attrs = map[string]string{}
 	s.failedSince, s.readsSince = nil, nil
 	s.dead = false
-	s.reservedTouched = false
+	s.writes = nil
+	s.last = nil
 	if !s.quiet {
 		s.ops = s.ops[:0]
 		s.ops = append(s.ops, s.q.line())
@@ -164,6 +171,13 @@ func (s *seqRun) read(e *eng) readback {
 		q := rawReq{method: "GET", path: p}
 		resp := e.do(q)
 		co := canonResp(s.cx(), q, resp)
+		// C15 on every read-back of the engine under test: no panic, documented status, error document, valid JSON
+		if e == s.a && !s.quiet && !s.dead {
+			s.wellFormed(q, resp, co, "")
+			if resp.panicked != "" {
+				s.dead = true
+			}
+		}
 		rb.toks = append(rb.toks, co.tok)
 		if p == pModel && co.model != nil {
 			rb.model, rb.bits = co.model, co.bits
@@ -187,18 +201,21 @@ func (s *seqRun) exec(q rawReq) engResp {
 
 	var before readback
 	if !s.quiet {
-		before = s.read(s.a)
-	}
-	for _, e := range nvps {
-		if reservedAttr[e.Name] && e.Name != "Encoding" {
-			s.reservedTouched = true
+		if s.last != nil {
+			before = *s.last // nothing was sent to the engine since that read-back (route checks use engines of their own)
+		} else {
+			before = s.read(s.a)
 		}
+		s.last = nil
 	}
 	scenBefore := s.scen
 	resp := s.a.do(q)
 
 	// what the harness knows after this request (only from the engine's own answers)
 	accepted := resp.status == 200 && isWrite(q)
+	if accepted && !s.quiet {
+		s.writes = append(s.writes, rawReq{method: q.method, path: q.path, ctype: q.ctype, body: append([]byte(nil), q.body...)})
+	}
 	if accepted && kind == pkScenario && q.method == "POST" {
 		if sc != nil {
 			s.scen, s.scenText = sc, append([]byte(nil), q.body...)
@@ -206,6 +223,10 @@ func (s *seqRun) exec(q rawReq) engResp {
 		}
 	}
 
+	var after readback
+	if !s.quiet && resp.panicked == "" {
+		after = s.read(s.a)
+	}
 	// oracle: validity of the action sets this request can produce under the scenario's limit
 	if s.scen != nil && s.scen.limVar >= 0 && isWrite(q) && !s.quiet && resp.panicked == "" {
 		seen := map[string]bool{}
@@ -217,7 +238,6 @@ func (s *seqRun) exec(q rawReq) engResp {
 			seen[k] = true
 			s.emit("oracle "+escTok(s.scen.key)+" "+k+" "+b2s(s.scen.validAt(bits)), "ok")
 		}
-		after := s.read(s.a)
 		tell(after.bits)
 		tell(make([]bool, s.scen.n()))
 		for _, e := range nvps {
@@ -266,7 +286,17 @@ func (s *seqRun) exec(q rawReq) engResp {
 			s.dead = true
 		}
 	}
-	after := s.read(s.a)
+	if s.dead {
+		return resp // a read-back GET panicked (reported)
+	}
+	// a read leaves every resource unchanged: the whole read-back, repeated, gives the same answers (the first pass has
+	// GET every resource once, /model/actions/applicable and every subcatchment included)
+	if again := s.read(s.a); strings.Join(again.toks, "\n") != strings.Join(after.toks, "\n") {
+		s.fail("C14:reads-leave-state", "engine:read-changed-state", fmt.Sprintf("after %s %s -> %d every resource was read once (GET %s); reading them all again gives different answers:\n%s",
+			q.method, q.path, resp.status, strings.Join(s.readPaths(), ", GET "), diffToks(s.readPaths(), after.toks, again.toks)))
+		s.dead = true
+		return resp
+	}
 	// escape hatch: the failure paths of POST /scenario (other than a non-catchment model) leave Go-object aliasing and
 	// sticky interpreter errors behind that the model does not transcribe; while that quirk is observed the sequence is
 	// cut right after such a request (the direct checks below still see it)
@@ -332,13 +362,17 @@ func (s *seqRun) exec(q rawReq) engResp {
 	// GET /solutions/<label> fills the solution pool from clones that share the live model's attribute array (quirk
 	// poolAlias): force a snapshot refresh with a no-op table so that any damage becomes readable now (and is reported
 	// by the comparison with the reference engine inside that exec)
+	flushed := false
 	if !s.dead && s.q.poolAlias && kind == pkSolution && q.method == "GET" && resp.status == 200 && !s.inFlush {
-		s.inFlush = true
+		s.inFlush, flushed = true, true
 		s.exec(rawReq{method: "PUT", path: pActive, ctype: ctCsv, body: []byte("SubCatchment\n")})
 		s.inFlush = false
 	}
 	if kind == pkScenario && q.method == "POST" && resp.status == 200 && sc == nil {
 		s.dead = true // accepted something the harness cannot describe
+	}
+	if !s.dead && !s.inFlush && !flushed {
+		s.last = &after
 	}
 	return resp
 }
@@ -373,28 +407,20 @@ func (s *seqRun) wellFormed(q rawReq, resp engResp, co canonOut, line string) {
 	}
 }
 
-var reservedAttr = map[string]bool{"Encoding": true, "ValidAgainstScenario": true, "ValidationErrors": true, "ParetoFrontMember": true, "ModelSuppliedPlanningUnitName": true}
+// managedAttr: the names deriveExtraModelAttributes manages whatever the engine's state (ParetoFrontMember is managed
+// only while a solution table is loaded; before that an entry of that name is an ordinary posted attribute).
+var managedAttr = map[string]bool{"Encoding": true, "ValidAgainstScenario": true, "ValidationErrors": true}
 
-// nvpAny: does some entry with that name carry the value (canonical JSON)?  Duplicate entries are a transcribed
-// consequence of Attributes.Join / Has (a null-valued entry does not count as present).
-func nvpAny(as []nvp, name string, canon string) bool {
-	for _, a := range as {
-		if a.Name == name && canonJSON(a.Value) == canon {
-			return true
-		}
-	}
-	return false
-}
-
-func nvpLast(as []nvp, name string) (interface{}, bool) {
-	var v interface{}
-	ok := false
+// nvpAll: the canonical JSON values of EVERY entry with that name, in order.  The property demands that a name is
+// listed once ("identical model representations"): a second entry is a finding, never accepted silently.
+func nvpAll(as []nvp, name string) []string {
+	var out []string
 	for _, a := range as {
 		if a.Name == name {
-			v, ok = a.Value, true
+			out = append(out, canonJSON(a.Value))
 		}
 	}
-	return v, ok
+	return out
 }
 
 func nvpGet(as []nvp, name string) (interface{}, bool) {
@@ -461,16 +487,15 @@ func (s *seqRun) checkWrite(q rawReq, kind pathKind, subId string, nvps []nvp, t
 		s.solText = append([]byte(nil), q.body...)
 		s.solTable = tbl
 	}
+	if kind == pkSolutions {
+		delete(s.attrs, "ParetoFrontMember") // from now on the engine derives it
+	}
 	if kind == pkModel && q.method == "PATCH" {
 		for _, e := range nvps {
-			if reservedAttr[e.Name] {
+			if managedAttr[e.Name] || (e.Name == "ParetoFrontMember" && s.solTable != nil) {
 				continue
 			}
-			if e.Value != nil {
-				s.attrs[e.Name] = canonJSON(e.Value)
-			} else {
-				delete(s.attrs, e.Name) // a null value: the entry no longer counts as present (Attributes.Has)
-			}
+			s.attrs[e.Name] = canonJSON(e.Value) // a null value too: the entry is listed, with value null
 		}
 	}
 	if s.scen == nil || after.model == nil {
@@ -487,18 +512,35 @@ func (s *seqRun) checkWrite(q rawReq, kind pathKind, subId string, nvps []nvp, t
 		s.fail(pred, sig, what+"active actions shown "+bitsTok(after.bits)+", last set "+bitsTok(want))
 	}
 	d := after.model
-	if d.Id != "" && kind == pkScenario {
-		// Id is the scenario name just posted
-	}
-	if enc, _ := nvpLast(d.Attributes, "Encoding"); !nvpAny(d.Attributes, "Encoding", canonJSON(engEncode(after.bits))) {
-		s2 := sig
-		if kind == pkSub {
-			s2 = "engine:route-dependent-representation"
+	// exactly ONE entry of the name, carrying the value; `want == ""`: no entry of the name at all
+	exactly := func(name, want, sigWrong, why string) {
+		vals := nvpAll(d.Attributes, name)
+		switch {
+		case want == "" && len(vals) == 0:
+		case want != "" && len(vals) == 1 && vals[0] == want:
+		case len(vals) > 1:
+			s.fail(pred, "engine:attribute-listed-twice", what+fmt.Sprintf("GET /model lists %d entries named %q (values %s); %s", len(vals), name, strings.Join(vals, ", "), why))
+		case want == "":
+			s.fail(pred, sigWrong, what+fmt.Sprintf("GET /model lists %q = %s; %s", name, vals[0], why))
+		case len(vals) == 0:
+			s.fail(pred, sigWrong, what+fmt.Sprintf("GET /model lists no entry named %q; %s", name, why))
+		default:
+			s.fail(pred, sigWrong, what+fmt.Sprintf("GET /model lists %q = %s; %s", name, vals[0], why))
 		}
-		s.fail(pred, s2, what+fmt.Sprintf("GET /model shows active actions %s (encoding %s) but its Encoding attribute is %v", bitsTok(after.bits), engEncode(after.bits), enc))
 	}
-	if v, _ := nvpLast(d.Attributes, "ValidAgainstScenario"); !nvpAny(d.Attributes, "ValidAgainstScenario", canonJSON(s.scen.validAt(after.bits))) {
-		s.fail(pred, sig, what+fmt.Sprintf("ValidAgainstScenario is %v, the scenario's limit says %v for %s", v, s.scen.validAt(after.bits), bitsTok(after.bits)))
+	encSig := sig
+	if kind == pkSub {
+		encSig = "engine:route-dependent-representation"
+	}
+	exactly("Encoding", canonJSON(engEncode(after.bits)), encSig, fmt.Sprintf("it shows active actions %s, whose encoding is %s", bitsTok(after.bits), engEncode(after.bits)))
+	valid := s.scen.validAt(after.bits)
+	exactly("ValidAgainstScenario", canonJSON(valid), sig, fmt.Sprintf("the scenario's limit says %v for %s", valid, bitsTok(after.bits)))
+	if valid {
+		exactly("ValidationErrors", "", sig, "the set shown is valid against the scenario")
+	} else {
+		// the message describes THIS set: it is what a freshly initialised model at exactly this set reports
+		exactly("ValidationErrors", canonJSON(s.scen.veTextAt(after.bits)), "engine:stale-validation-errors",
+			fmt.Sprintf("the set shown, %s, is invalid against the scenario and a freshly initialised model at that set reports %q", bitsTok(after.bits), s.scen.veTextAt(after.bits)))
 	}
 	if s.solTable != nil {
 		want := false
@@ -508,15 +550,15 @@ func (s *seqRun) checkWrite(q rawReq, kind pathKind, subId string, nvps []nvp, t
 				want = true
 			}
 		}
-		if v, ok := nvpLast(d.Attributes, "ParetoFrontMember"); !nvpAny(d.Attributes, "ParetoFrontMember", canonJSON(want)) {
-			s.fail(pred, sig, what+fmt.Sprintf("a solution set is loaded, ParetoFrontMember should be %v for encoding %s, GET /model shows %v (present: %v)", want, engEncode(after.bits), v, ok))
-		}
+		exactly("ParetoFrontMember", canonJSON(want), sig, fmt.Sprintf("a solution set is loaded and says %v for encoding %s", want, engEncode(after.bits)))
 	}
-	for name, val := range s.attrs {
-		got, ok := nvpLast(d.Attributes, name)
-		if !nvpAny(d.Attributes, name, val) {
-			s.fail(pred, sig, what+fmt.Sprintf("attribute %q was successfully patched to %s, GET /model shows %v (present: %v)", name, val, got, ok))
-		}
+	names := make([]string, 0, len(s.attrs))
+	for name := range s.attrs {
+		names = append(names, name)
+	}
+	sort.Strings(names)
+	for _, name := range names {
+		exactly(name, s.attrs[name], sig, fmt.Sprintf("the last successful PATCH of that attribute set it to %s", s.attrs[name]))
 	}
 }
 
@@ -602,81 +644,159 @@ func subBody(sc *engScenario, pu uint64, bits []bool) []byte {
 	return []byte("[" + strings.Join(items, ",") + "]")
 }
 
-// routeCheck reaches the set A currently shows by whole-table PUT, per-subcatchment PUTs and an encoding PATCH on
-// three fresh engines (same scenario text, same solutions text) and compares the model representations.
+// fullModelTok is the complete canonical representation of a GET /model answer: id, decision variables (checked against
+// the reference model at the set shown), active actions, the WHOLE attribute list (sorted; duplicates kept) and — unlike
+// the protocol token — the text of every ValidationErrors entry.
+func fullModelTok(co canonOut) string {
+	if co.model == nil {
+		return "no-model: " + co.tok
+	}
+	return co.tok + " VE-text=" + strings.Join(nvpAll(co.model.Attributes, "ValidationErrors"), "|")
+}
+
+// routeCheck: "reaching the same action set by whole-table upload, per-subcatchment updates or an encoding patch gives
+// identical model representations".  Three fresh engines are brought into the state of the engine under test by
+// replaying its successful writes (so the routes start from the CURRENT state, posted attributes, loaded solution set
+// and all), then a target set — the set currently shown, or a random one — is reached on each by one of the routes, and
+// the COMPLETE model representations are compared with each other; when the target is the current set they must also
+// equal the engine's own representation (setting the set it already has changes nothing).
 func (s *seqRun) routeCheck() {
-	if s.scen == nil || s.scenText == nil || s.dead {
+	if s.scen == nil || s.scenText == nil || s.dead || s.quiet {
 		return
 	}
 	cur := s.read(s.a)
-	if cur.bits == nil {
+	if cur.bits == nil || cur.model == nil {
 		return
 	}
-	bits := cur.bits
-	solLoaded := s.solText != nil
-	derived := func(d *modelDoc) string {
-		if d == nil {
-			return "no-model"
+	getModel := rawReq{method: "GET", path: pModel}
+	own := fullModelTok(canonResp(s.cx(), getModel, s.a.do(getModel)))
+	target, same := cur.bits, true
+	if s.rr != nil && s.rr.Chance(0.5) {
+		target, same = make([]bool, s.scen.n()), false
+		p := s.rr.Float()
+		for i := range target {
+			target[i] = s.rr.Chance(p)
 		}
-		var keep []nvp
-		for _, name := range []string{"Encoding", "ValidAgainstScenario", "ValidationErrors", "ParetoFrontMember"} {
-			if name == "ParetoFrontMember" && !solLoaded {
-				continue
-			}
-			if v, ok := nvpLast(d.Attributes, name); ok {
-				keep = append(keep, nvp{Name: name, Value: v})
-			}
-		}
-		return attrsTok(keep)
 	}
 	routes := []string{"table", "subcatchments", "encoding"}
 	reprs := make([]string, 3)
 	for ri, route := range routes {
 		e := newEng()
-		if r := e.do(rawReq{method: "POST", path: pScenario, ctype: ctToml, body: s.scenText}); r.status != 200 {
-			return
+		for _, w := range s.writes {
+			if r := e.do(w); r.status != 200 {
+				return // the reference-engine comparison of exec reports this
+			}
 		}
-		if s.solText != nil {
-			if r := e.do(rawReq{method: "POST", path: pSolutions, ctype: ctCsv, body: s.solText}); r.status != 200 {
-				solLoaded = false // the solution set in force was posted under an earlier scenario and does not fit this one
+		var rejected []string
+		do := func(q rawReq) {
+			if r := e.do(q); r.status != 200 {
+				rejected = append(rejected, fmt.Sprintf("%s %s -> %d", q.method, q.path, r.status))
 			}
 		}
 		switch route {
 		case "table":
-			e.do(rawReq{method: "PUT", path: pActive, ctype: ctCsv, body: s.fullTableCsv(s.scen, bits)})
+			do(rawReq{method: "PUT", path: pActive, ctype: ctCsv, body: s.fullTableCsv(s.scen, target)})
 		case "subcatchments":
 			for _, pu := range s.scen.pus {
 				if len(s.scen.typesAt(pu)) > 0 {
-					e.do(rawReq{method: "PUT", path: pSubPrefix + strconv.FormatUint(pu, 10), ctype: ctJson, body: subBody(s.scen, pu, bits)})
+					do(rawReq{method: "PUT", path: pSubPrefix + strconv.FormatUint(pu, 10), ctype: ctJson, body: subBody(s.scen, pu, target)})
 				}
 			}
 		case "encoding":
-			e.do(rawReq{method: "PATCH", path: pModel, ctype: ctJson, body: []byte(fmt.Sprintf(`[{"Name":"Encoding","Value":%q}]`, engEncode(bits)))})
+			do(rawReq{method: "PATCH", path: pModel, ctype: ctJson, body: []byte(fmt.Sprintf(`[{"Name":"Encoding","Value":%q}]`, engEncode(target)))})
 		}
-		q := rawReq{method: "GET", path: pModel}
-		co := canonResp(s.cx(), q, e.do(q))
-		if co.model == nil {
-			reprs[ri] = "no-model"
-			continue
+		reprs[ri] = fullModelTok(canonResp(s.cx(), getModel, e.do(getModel)))
+		if len(rejected) > 0 {
+			reprs[ri] = "route rejected (" + strings.Join(rejected, "; ") + ") " + reprs[ri]
 		}
-		r := "R:" + bitsTok(co.bits)
-		if canonJSON(co.model.DecisionVariables) != s.scen.dvJSON(co.bits) {
-			r = "R!variables"
-		}
-		reprs[ri] = r + " " + derived(co.model)
 	}
 	s.c.Stat("route-check")
-	own := "R:" + bitsTok(bits)
-	if cur.model != nil && canonJSON(cur.model.DecisionVariables) != s.scen.dvJSON(bits) {
-		own = "R!variables"
+	if same {
+		s.c.Stat("route-check: target = current set")
 	}
-	own += " " + derived(cur.model)
-	if reprs[0] != reprs[1] || reprs[1] != reprs[2] {
+	wantR := "R" + escTok(s.scen.key) + ":" + bitsTok(target) + " "
+	switch {
+	case reprs[0] != reprs[1] || reprs[1] != reprs[2]:
 		s.fail("C14:route-independent", "engine:route-dependent-representation",
-			fmt.Sprintf("active set %s reached on fresh engines by\n  whole-table PUT:        %s\n  per-subcatchment PUTs:  %s\n  encoding PATCH:         %s", bitsTok(bits), reprs[0], reprs[1], reprs[2]))
-	} else if own != reprs[0] && !s.reservedTouched {
+			fmt.Sprintf("after the %d successful writes of this sequence, active set %s reached by\n  whole-table PUT:        %s\n  per-subcatchment PUTs:  %s\n  encoding PATCH:         %s",
+				len(s.writes), bitsTok(target), clip(reprs[0], 700), clip(reprs[1], 700), clip(reprs[2], 700)))
+	case !strings.Contains(reprs[0], " "+wantR):
 		s.fail("C14:route-independent", "engine:route-dependent-representation",
-			fmt.Sprintf("active set %s: the engine under test (after its request history) shows %s, a fresh engine reaching the same set shows %s", bitsTok(bits), own, reprs[0]))
+			fmt.Sprintf("the three routes to active set %s agree on a representation that does not show that set (or whose variables are not those of that set): %s", bitsTok(target), clip(reprs[0], 700)))
+	case same && own != reprs[0]:
+		s.fail("C14:route-independent", "engine:route-dependent-representation",
+			fmt.Sprintf("active set %s: the engine under test shows\n  %s\nsetting that same set again (on an engine that received the same successful writes) shows\n  %s", bitsTok(target), clip(own, 700), clip(reprs[0], 700)))
+	}
+}
+
+// ---------------------------------------------------------------- start-up routes
+
+// startupCheck: cmd/cremengine brings the engine into its initial state with RestServer.SetScenario / SetSolution /
+// SetSolutionSummary (files named on the command line) before it serves anything.  One engine is built that way and one
+// engine receives the same three texts as POST /scenario, PUT /model/actions/active and POST /solutions (through exec, so
+// that the Lean spec and every direct check see them): every readable resource of the two must agree.  Solution and
+// summary files the handlers would answer 400 to are ignored at start-up (logged), exactly like the failed request.
+func (s *seqRun) startupCheck(g *engGen) {
+	s.reset()
+	sc := g.scs[g.r.Intn(len(g.scs))]
+	lim := map[string]float64{}
+	if sc.limVar >= 0 {
+		lim[varMaxKey[sc.limVar]] = sc.limit
+	}
+	scenBody := []byte(scenarioText("startup "+g.text(g.jsonPct()), "CatchmentModel", sc.dsRel, lim, g.text(true)))
+	if r := s.exec(rawReq{method: "POST", path: pScenario, ctype: ctToml, body: scenBody}); r.status != 200 || s.dead {
+		return
+	}
+	dir := filepath.Join(s.c.Out, "startup")
+	must(os.MkdirAll(dir, 0o755))
+	scenFile := filepath.Join(dir, "scenario.toml")
+	must(os.WriteFile(scenFile, scenBody, 0o644))
+	var solFile, sumFile string
+	if g.r.Chance(0.8) {
+		q := g.activeReq(s)
+		q.ctype = ctCsv
+		s.exec(q)
+		solFile = filepath.Join(dir, "solution.csv")
+		must(os.WriteFile(solFile, q.body, 0o644))
+	}
+	if !s.dead && g.r.Chance(0.8) {
+		q := g.solutionsReq(s)
+		q.ctype = ctCsv
+		s.exec(q)
+		sumFile = filepath.Join(dir, "summary.csv")
+		must(os.WriteFile(sumFile, q.body, 0o644))
+	}
+	if s.dead {
+		return
+	}
+	e := newEng()
+	what := "SetScenario"
+	panicked := protect(func() {
+		e.rs.SetScenario(scenFile)
+		if solFile != "" {
+			what = "SetSolution"
+			e.rs.SetSolution(solFile)
+		}
+		if sumFile != "" {
+			what = "SetSolutionSummary"
+			e.rs.SetSolutionSummary(sumFile)
+		}
+	})
+	s.c.Stat(fmt.Sprintf("start-up: scenario solution=%s summary=%s", b2s(solFile != ""), b2s(sumFile != "")))
+	if panicked != "" {
+		s.fail("C14:startup-routes", "engine:startup-route-panics", fmt.Sprintf("%s with the text the request handler accepts or answers 400 to panicked: %s", what, panicked))
+		return
+	}
+	viaRequests, viaStartup := s.read(s.a), s.read(e)
+	if strings.Join(viaRequests.toks, "\n") != strings.Join(viaStartup.toks, "\n") {
+		s.fail("C14:startup-routes", "engine:startup-route-differs",
+			fmt.Sprintf("an engine initialised with SetScenario / SetSolution / SetSolutionSummary shows other resources than an engine that received the same texts as POST /scenario, PUT /model/actions/active, POST /solutions:\n%s",
+				diffToks(s.readPaths(), viaRequests.toks, viaStartup.toks)))
+	}
+	for i, p := range s.readPaths() {
+		if (p == pScenario || p == pSolutions) && strings.HasPrefix(viaRequests.toks[i], "200 text") && !bytes.Equal(viaRequests.raw[p], viaStartup.raw[p]) {
+			s.fail("C14:text-verbatim", "engine:text-not-verbatim", fmt.Sprintf("GET %s after start-up from a file returns %q, the file holds %q", p, clip(string(viaStartup.raw[p]), 300), clip(string(viaRequests.raw[p]), 300)))
+		}
 	}
 }
 
@@ -834,6 +954,38 @@ func calibrate(cat *engCatalogue) (engQuirks, [][]rawReq) {
 		q.scenarioEager = r.status == 200
 		scripts = append(scripts, script)
 	}
+	countAttr := func(d *modelDoc, name string) int {
+		if d == nil {
+			return 0
+		}
+		return len(nvpAll(d.Attributes, name))
+	}
+	// a null-valued entry does not count as present: the next ReplaceAttribute / Join of the name appends a second entry
+	{
+		script := []rawReq{scenReq("calibration", ""),
+			{method: "PATCH", path: pModel, ctype: ctJson, body: []byte(`[{"Name":"Probe","Value":null}]`)},
+			{method: "PATCH", path: pModel, ctype: ctJson, body: []byte(`[{"Name":"Probe","Value":1}]`)}}
+		e := newEng()
+		for _, r := range script {
+			post(e, r)
+		}
+		q.nullShadow = countAttr(getModelDoc(e, sc), "Probe") > 1
+		// the consequence for the derived attributes: ValidAgainstScenario listed twice, and differently often by route
+		scripts = append(scripts, script, []rawReq{scenReq("calibration", ""),
+			{method: "PATCH", path: pModel, ctype: ctJson, body: []byte(`[{"Name":"ValidAgainstScenario","Value":null}]`)},
+			subOn})
+	}
+	// a name posted twice in one PATCH is appended twice (Join asks its receiver)
+	{
+		script := []rawReq{scenReq("calibration", ""),
+			{method: "PATCH", path: pModel, ctype: ctJson, body: []byte(`[{"Name":"Probe","Value":1},{"Name":"Probe","Value":2}]`)}}
+		e := newEng()
+		for _, r := range script {
+			post(e, r)
+		}
+		q.joinStale = countAttr(getModelDoc(e, sc), "Probe") > 1
+		scripts = append(scripts, script)
+	}
 	return q, scripts
 }
 
@@ -845,6 +997,9 @@ type engGen struct {
 	q   engQuirks
 	scs []*engScenario // scenarios this shard posts
 }
+
+// c14BigText bounds the padding of an occasional large accepted text (x 22 bytes; the protocol line carries it in hex)
+const c14BigText = 12000
 
 var funnyTexts = []string{"100% sure %s", "%", "%%", "%!", "%d%v%+v", "% x", "%[1]d", "%*d", "é€😀", "tab\there", "semi;colon", "a b", ""}
 
@@ -886,6 +1041,17 @@ func (g *engGen) scenarioReq(h *seqRun) rawReq {
 			lim[varMaxKey[sc.limVar]] = sc.limit
 		}
 		body = scenarioText(name, "CatchmentModel", sc.dsRel, lim, comment)
+		// accepted texts are not all tidy: CRLF line ends, no final newline, a byte-order mark, large
+		switch d := r.Intn(100); {
+		case d < 8:
+			body = strings.ReplaceAll(body, "\n", "\r\n")
+		case d < 14:
+			body = strings.TrimSuffix(body, "\n")
+		case d < 17:
+			body = "\xef\xbb\xbf" + body
+		case d < 19:
+			body += "# " + strings.Repeat("padding %s 0123456789 ", 1+r.Intn(c14BigText)) + "\n"
+		}
 	case k < 78:
 		body = []string{"this is = not [toml", "[Scenario]\nName = 5\n", "[Scenario\nName = \"x\"", "\x00\xff"}[r.Intn(4)]
 	case k < 84:
@@ -983,6 +1149,25 @@ func (g *engGen) solutionsReq(h *seqRun) rawReq {
 	} else if len(rows) > 1 && r.Chance(0.05) {
 		rows = rows[1:]
 	}
+	// magnitudes: huge, non-finite and boundary numbers (every spelling below is a NUMBER to the CSV caster) in an As-Is
+	// cell — with every cell to its left still matching the scenario, or not — and in the numeric cells of other rows
+	if r.Chance(0.12) {
+		big := []string{"1e305", "1.797e305", "1.8e305", "1e306", "1.797e306", "1e307", "1e308", "1.7976931348623157e308", "-1e306", "-1e308",
+			"Inf", "+Inf", "-Inf", "Infinity", "-Infinity", "inf", "NaN", "nan", "5e-324", "-5e-324", "0x1p1023", "1e-400", "99999999999999999999"}[r.Intn(23)]
+		ri := r.Intn(len(rows))
+		if r.Chance(0.6) {
+			for i, row := range rows {
+				if row[0] == "As-Is" {
+					ri = i
+				}
+			}
+		}
+		ci := 1 + r.Intn(len(sc.asIs))
+		if r.Chance(0.5) {
+			ci = 1
+		}
+		rows[ri][ci] = big
+	}
 	// defects of the table, one at a time
 	switch d := r.Intn(100); {
 	case d < 62:
@@ -1020,11 +1205,19 @@ func (g *engGen) solutionsReq(h *seqRun) rawReq {
 		return rawReq{method: "POST", path: pSolutions, ctype: ct, body: nil}
 	}
 	var sb strings.Builder
-	sb.WriteString(strings.Join(header, sep) + "\n")
-	for _, row := range rows {
-		sb.WriteString(strings.Join(row, sep) + "\n")
+	eol := "\n"
+	if r.Chance(0.08) {
+		eol = "\r\n"
 	}
-	return rawReq{method: "POST", path: pSolutions, ctype: ct, body: []byte(sb.String())}
+	sb.WriteString(strings.Join(header, sep) + eol)
+	for _, row := range rows {
+		sb.WriteString(strings.Join(row, sep) + eol)
+	}
+	text := sb.String()
+	if r.Chance(0.06) {
+		text = strings.TrimSuffix(text, eol)
+	}
+	return rawReq{method: "POST", path: pSolutions, ctype: ct, body: []byte(text)}
 }
 
 func varNames2() []string { return varNames }
@@ -1063,6 +1256,26 @@ func (g *engGen) patchReq(h *seqRun) rawReq {
 		}
 		pairs = append(pairs, nv{name, val})
 	}
+	// an attribute that is already there is patched again, with a value of the kind it holds (arrays and objects are
+	// not comparable in Go: anything that compares the stored with the new value must survive that)
+	if len(h.attrs) > 0 && r.Chance(0.3) {
+		names := make([]string, 0, len(h.attrs))
+		for name := range h.attrs {
+			names = append(names, name)
+		}
+		sort.Strings(names)
+		name := names[r.Intn(len(names))]
+		val := attrValues[r.Intn(len(attrValues))]
+		switch cur := h.attrs[name]; {
+		case strings.HasPrefix(cur, "["):
+			val = []string{`[1,2]`, `[]`, `[[3]]`, cur}[r.Intn(4)]
+		case strings.HasPrefix(cur, "{"):
+			val = []string{`{"a":1,"b":[true]}`, `{}`, cur}[r.Intn(3)]
+		case r.Chance(0.5):
+			val = cur
+		}
+		pairs = append(pairs, nv{name, val})
+	}
 	ne := []int{0, 1, 1, 1, 2}[r.Intn(5)]
 	for i := 0; i < ne; i++ {
 		var val string
@@ -1087,16 +1300,17 @@ func (g *engGen) patchReq(h *seqRun) rawReq {
 		pos := r.Intn(len(pairs) + 1)
 		pairs = append(pairs[:pos], append([]nv{{"Encoding", val}}, pairs[pos:]...)...)
 	}
-	// Not generated: a name that is repeated within one PATCH with a null among its values.  What Attributes.Join does
-	// then depends on whether an earlier append re-allocated the model's attribute slice (its receiver keeps looking at
-	// the old array), i.e. on Go's append growth and the slice's spare capacity, which the model does not track.
+	// Not generated WHILE the quirk joinStale is observed: a name that is repeated within one PATCH with a null among its
+	// values.  What Attributes.Join does then depends on whether an earlier append re-allocated the model's attribute
+	// slice (its receiver keeps looking at the old array), i.e. on Go's append growth and the slice's spare capacity,
+	// which the model does not track.  (Join asking the list it builds has no such dependence.)
 	count := map[string]int{}
 	for _, p := range pairs {
 		count[p.name]++
 	}
 	var items []string
 	for _, p := range pairs {
-		if count[p.name] > 1 && p.val == "null" {
+		if g.q.joinStale && count[p.name] > 1 && p.val == "null" {
 			p.val = "0"
 		}
 		items = append(items, fmt.Sprintf(`{"Name":%s,"Value":%s}`, strconv.Quote(p.name), p.val))
@@ -1350,6 +1564,20 @@ func engineScenarios(c *Ctx, cat *engCatalogue, r *Rng, nGen int) []*engScenario
 		add(cat.scenario("ds/valid/ValidModel.csv", 4, float64(int(hi[4]*0.4)))) // implementation cost: as-is valid
 		add(cat.scenario("ds/valid/ValidModel.csv", 0, float64(int((hi[0]+lo[0])/2)))) // sediment: as-is invalid
 	}
+	// a planning unit offering all four action types (the shipped data sets have at most three per unit)
+	four := cat.scenario("ds/four/FourModel.csv", -1, 0)
+	add(four)
+	if four != nil {
+		all := make([]bool, four.n())
+		for i := range all {
+			all[i] = true
+		}
+		add(cat.scenario("ds/four/FourModel.csv", 4, float64(int(four.totalsAt(all)[4]*0.3)))) // most sets invalid, the as-is set valid
+	}
+	// more than 64 management actions: two-word encodings
+	for i := 0; i < c.N(1, 2); i++ {
+		add(cat.scenario(fmt.Sprintf("ds/big-%d/bModel.csv", 500+r.U64()%1000), -1, 0))
+	}
 	for i := 0; i < nGen; i++ {
 		seed := 1000 + r.U64()%100000
 		rel := genDatasetRel(seed, cat.root)
@@ -1376,9 +1604,10 @@ func suiteEngineSeq(c *Ctx) {
 		return
 	}
 	q, scripts := calibrate(cat)
-	c.extra["engine_variant_observed"] = q.line() + " scenarioEager=" + b2s(q.scenarioEager)
+	c.extra["engine_variant_observed"] = q.line()
 	c.Op(q.line(), "ok")
 	run := newSeqRun(c, cat, q)
+	run.rr = c.Rng.Fork()
 	// the calibration experiments, recorded (the direct checks report whichever quirk is present)
 	for _, script := range scripts {
 		run.reset()
@@ -1392,10 +1621,10 @@ func suiteEngineSeq(c *Ctx) {
 	}
 	g := &engGen{r: c.Rng.Fork(), cat: cat, q: q}
 	g.scs = engineScenarios(c, cat, g.r, c.N(2, 6))
-	nSeq, seqLen := c.N(220, 700), 30
-	if c.Shards > 1 {
-		nSeq = nSeq / 1
+	for i := 0; i < c.N(6, 30); i++ {
+		run.startupCheck(g)
 	}
+	nSeq, seqLen := c.N(80, 700), 30 // per shard (quick: 3 shards for C14, 1 for C15)
 	for i := 0; i < nSeq; i++ {
 		run.reset()
 		n := seqLen/2 + g.r.Intn(seqLen)
